@@ -247,3 +247,19 @@ def check(ctx):
     # ---- R05-e the cancellation classifier used while leaving scopes and task groups cannot fail or over-match ----------------------
     from .common import classifier_total
     classifier_total(ctx, "R05-e")
+
+
+    # ---- R05-f a task group's own scope is left on every exit of __aexit__, native cancellation of the final checkpoint included ------
+    aex = ctx.fn("TaskGroup.__aexit__", A)
+
+    def step_f(st, e, c):
+        return True      # the call counts even if it raises (misuse errors come from inside __exit__)
+
+    def at_exit_f(kind, st, facts):
+        if not st:
+            return (f"TaskGroup.__aexit__ can leave by {kind} without calling its cancel scope's __exit__: the scope stays the task's current scope "
+                    f"(every later scope exit in this task fails, a late cancel() of the group keeps cancelling the task)")
+        return None
+
+    ctx.paths("R05-f", aex, [("exit", "self.cancel_scope.__exit__($*A)")], step_f, False, at_exit_f,
+              instance="the group's scope is exited on every path (also when the shielded exit checkpoint is cancelled natively)", native=True, broad=True)
